@@ -4,6 +4,7 @@
 -/
 import Cgp.GatewaySpec
 import Cgp.Proofs.C03
+import Cgp.Proofs.C03H
 import Cgp.Toy
 namespace Cgp.Props.C03
 open Cgp Cgp.Xdr Cgp.Gateway
@@ -141,6 +142,35 @@ example : WellFormed ⟨[⟨[1], 3⟩, ⟨[2], 4⟩], 7, []⟩ := by
   · intro s hs
     simp at hs
     rcases hs with rfl | rfl <;> simp
+
+/-! ### every installed set was authorised (history level) -/
+
+/-- **every signer set installed after construction was authorised**: start from any successful construction with typed
+    initial sets and run ANY history of typed submissions; if afterwards a set `ws` is on record at an epoch beyond the
+    initial ones, then somewhere in that history a successful `rotate_signers` call installed exactly `ws` at exactly that
+    epoch, `ws` is well-formed, the call's proof was valid in the state it was submitted to (signatures of a registered,
+    still-retained set reaching its threshold over the digest binding domain, set, the ROTATION command and `ws`), and
+    either the operator authorised a bypass, or the proof came from the then latest set and the minimum delay since the
+    previous rotation had elapsed — or a hash collision is exhibited. -/
+theorem installed_was_authorised (owner operator : Addr) (domain : Bytes) (minDelay retention : Nat) (sets : List WSigners)
+    (now : Nat) (w0 : World) (hsets : ∀ ws ∈ sets, ws.Typed)
+    (hc : constructed H owner operator domain minDelay retention sets now = some w0)
+    (ops : List (Op σ)) (hty : ∀ op ∈ ops, op.Typed) (e : Nat) (ws : WSigners)
+    (hfin : (run H V w0 ops).1.st.setAt e = some ws) (he : w0.st.epoch < e) :
+    (∃ wa auths proof bypass evs,
+        (wa, Op.rotate auths ws proof bypass, Obs.ok evs) ∈ trace H V w0 ops ∧ wa.st.epoch + 1 = e ∧
+        WellFormed ws ∧ ProofValid H V wa.st (rotateDataHash H ws) proof ∧
+        (bypass = true → wa.st.operator ∈ auths) ∧
+        (bypass = false →
+          wa.st.epochByHash (signersHash H proof.weightedSigners) = some wa.st.epoch ∧
+          wa.st.lastRot.getD 0 ≤ wa.now ∧ wa.st.minDelay ≤ wa.now - wa.st.lastRot.getD 0))
+    ∨ Collision H := by
+  have hinv := Cgp.Proofs.C03H.AInv_constructed H owner operator domain minDelay retention sets now w0 hsets hc
+  have h0 : w0.st.setAt e = none :=
+    Cgp.Proofs.C03H.SInv_constructed H owner operator domain minDelay retention sets now w0 hc e he
+  rcases Cgp.Proofs.C03H.run_installed H V ops w0 hinv hty e ws hfin with h1 | h1
+  · rw [h0] at h1; cases h1
+  · exact h1
 
 /-! ### non-vacuity (the model RUN in the kernel on a concrete history, toy hash) -/
 section NonVacuity
